@@ -20,6 +20,7 @@ def units(tier):
         us.append(Unit(TF.TFNewRecord, {'flags': f}))
         if not f & 0x80:
             us.append(Unit(TF.TFRoundTrip, {'flags': f}))
+    us += [Unit(D.DRDateNewAfterZoneChange), Unit(D.VDDateNewAfterZoneChange)]
     return us
 
 
